@@ -254,7 +254,7 @@ Section Ref.
       rewrite accepts_first.
       2:{ intros t Ht. eapply (okr_no_fuel k); eauto. rewrite forallb_forall in Hf. auto. }
       destruct ts as [|t0 tr].
-      + rewrite build_TUnion. cbn [map visited_union existsb forallb flat_map norm_types].
+      + rewrite build_TUnion. cbn [map visited_union existsb forallb flat_map norm_types dedup_types fold_left memt jtype_eqb app].
         rewrite jvalid_only_type. destruct d as [|x|z|f|s|l|l|tg]; try destruct f; reflexivity.
       + rewrite union_type_schema by discriminate.
         apply existsb_in_ext. intros t Ht. rewrite Forall_forall in H. apply H; auto.
